@@ -134,6 +134,27 @@ Example strict_hypotheses_satisfiable :
   snd (np_step (SetAttr "values" (OScalar (PInt 1)) None) w_strict) = Raise AttributeError.
 Proof. vm_compute. repeat split; intros C; discriminate C. Qed.
 
+(* ---- kept finding: under strict=True the `values` replacement is refused by the new-attribute guard (the same operation
+   succeeds on the same series when strict is off), although no attribute would be created *)
+Theorem strict_values_setter_blocked_refuted :
+  exists s v, Inv s /\ strict s = true /\ mem "values" (index s) = false /\
+    np_step (SetAttr "values" v None) s = (s, Raise AttributeError) /\
+    snd (np_step (SetAttr "values" v None) (set_strict s false)) = Ret tt.
+Proof.
+  exists w_strict, (OScalar (PInt 5)). split; [|vm_compute; repeat split].
+  apply step_preserves_inv. exact w0_inv.
+Qed.
+
+(* the hypotheses of values_setter_reached are satisfiable: strict off, or strict on after 'values' has been registered *)
+Example values_setter_reached_instances :
+  let s1 := fst (np_step (SetAttr "values" (OScalar (PInt 5)) None) w0) in
+  let s2 := fst (np_step (SetAttr "strict" (OScalar (PBool true)) None) s1) in
+  strict w0 = false /\ mem "values" (index w0) = false /\
+  strict s2 = true /\ reg_mem "values" (registry s2) = true /\
+  snd (np_step (SetAttr "values" (OScalar (PInt 6)) None) s2) = Ret tt /\
+  assoc "X" (vars (fst (np_step (SetAttr "values" (OScalar (PInt 6)) None) s2))) = Some (mkVar DInt [3] [PInt 6; PInt 6; PInt 6]%Z).
+Proof. vm_compute. repeat split. Qed.
+
 Example ambiguous_closest_match :
   let s := fst (np_step (SetAttr "strict" (OScalar (PBool true)) None)
                  (np_run [AddVariable "x" (OScalar (PInt 1)) None; AddVariable "X" (OScalar (PInt 1)) None] (init_vc [1; 2]%Z false))) in
